@@ -534,3 +534,45 @@ def check_fresh_instance_state(model: RepoModel, rep, RID: str, rel: str, cname:
                           f"is created elsewhere) and is shared by every {cname}(), so an instance that is supposed to start empty sees what earlier "
                           f"instances recorded")
     return n
+
+
+def check_dict_merge_in_loops(model: RepoModel, rep, RID: str, rels: Iterable[str]) -> int:
+    """G7: a dict that is initialised empty before a loop, filled inside it and read after it collects, per key, what EVERY iteration
+    contributes (the per-field state sets of all exits of a callee, of all versions of an object).  `acc.update(other)` keeps, for a key
+    that two iterations contribute to, only the LAST contribution; the union helpers (add_to_dict_with_default_set, setdefault(..).update)
+    keep both.  Instances: every such dict accumulator in the given files; on the pinned tree none is filled with a bare update()."""
+    n = 0
+    for rel in rels:
+        mod = model.module(rel)
+        for f in mod.all_funcs():
+            inits = {a.targets[0].id: a for a in walk_no_nested(f.node) if isinstance(a, ast.Assign) and len(a.targets) == 1 and isinstance(a.targets[0], ast.Name)
+                     and isinstance(a.value, ast.Dict) and not a.value.keys}
+            if not inits:
+                continue
+            for L in walk_no_nested(f.node):
+                if not isinstance(L, (ast.For, ast.While)):
+                    continue
+                for name, init in inits.items():
+                    if not (init.lineno < L.lineno):
+                        continue
+                    grows = [c for c in ast.walk(L) if isinstance(c, ast.Call) and (
+                        (isinstance(c.func, ast.Attribute) and c.func.attr in ("update", "setdefault") and isinstance(c.func.value, ast.Name) and c.func.value.id == name)
+                        or (c.args and isinstance(c.args[0], ast.Name) and c.args[0].id == name and (call_name(c) or "").split(".")[-1].startswith("add_to_dict")))]
+                    stores = [a for a in ast.walk(L) if isinstance(a, ast.Assign) and any(isinstance(t, ast.Subscript) and isinstance(t.value, ast.Name) and t.value.id == name
+                                                                                           for t in a.targets)]
+                    if not grows and not stores:
+                        continue
+                    after = any(isinstance(x, ast.Name) and x.id == name and isinstance(x.ctx, ast.Load) and x.lineno > L.end_lineno for x in walk_no_nested(f.node))
+                    if not after:
+                        continue
+                    n += 1
+                    key = f"{rel}::{f.qualname}::`{name}`::per-key contributions of all iterations are kept"
+                    bare = [c for c in grows if isinstance(c.func, ast.Attribute) and c.func.attr == "update"]
+                    if bare:
+                        rep.violation(RID, key, rel, bare[0].lineno,
+                                      f"{f.qualname} fills `{name}` inside the loop at line {L.lineno} with `{norm(bare[0])[:80]}`: for a key that two iterations "
+                                      f"contribute to, update() replaces the earlier value by the later one -- of the states two exits of a callee leave in "
+                                      f"one field only those of the exit visited last survive")
+                    else:
+                        rep.holds(RID, key, rel, L.lineno, "filled by per-key stores / union helpers")
+    return n
